@@ -36,7 +36,6 @@ DROP_ALLOW = {
     ("<" + c.IMPLS + "lifecycle::default::DefaultLCProvider<'a, C, K> as " + c.LW + "types::WalletLCProvider<'a, C, K>>::change_password", SEED + "WalletSeed::init_file"): "the result is verified immediately: from_file(new password) must succeed and the seeds are compared before the backup is removed (C12.R5)",
 }
 
-_SUPPLY = "sum of stored output values: bounded by the total coin supply (assumption recorded in DESIGN.md)"
 _OWNREC = "value written by this wallet inside an atomic LMDB batch (hex of a commitment / derivable commitment); not torn by a crash"
 _LMDBENV = "fails only if LMDB cannot open a read transaction or cursor; the trait returns an iterator, not a Result; not a consequence of a torn write"
 R5_ALLOW = {
@@ -49,7 +48,6 @@ R5_ALLOW = {
     (UPD + "retrieve_outputs::{closure#4}", "unwrap alloc::vec::Vec<u8>"): (1, _OWNREC),
     (UPD + "retrieve_outputs::{closure#4}", "unwrap secp256k1zkp::pedersen::Commitment"): (1, "keychain.commit over the wallet's own key id; the keychain was obtained (mask checked) just above"),
     (UPD + "retrieve_txs", "unwrap lw::api_impl::types::RetrieveTxQueryArgs"): (1, "inside `if query_args.is_some() && ..`"),
-    (UPD + "retrieve_info", "assert:Overflow:Add "): (9, _SUPPLY),
 }
 
 
@@ -238,7 +236,7 @@ def run(ctx):
             run.finding(Finding(R4, fid, "%s on a value parsed from the %s" % (s.kind, what), site=s.site()))
 
     R5 = "C06.R5"
-    run.rule(R5, "queries after reopen do not panic on the wallet's own bookkeeping", floor=20)
+    run.rule(R5, "queries after reopen do not panic on the wallet's own bookkeeping", floor=12)
     names = [BACKEND + n_ for n_ in ("iter", "tx_log_iter", "get", "get_tx_log_entry", "acct_path_iter", "last_confirmed_height", "last_scanned_block", "init_status", "get_acct_path", "get_stored_tx", "get_private_context", "current_child_index")]
     names += [LM + "LMDBBackend::<'ck, C, K>::new", UPD + "retrieve_outputs", UPD + "retrieve_txs", UPD + "retrieve_info", UPD + "apply_advanced_tx_list_filtering",
               OWNER + "get_stored_tx", OWNER + "retrieve_outputs", OWNER + "retrieve_txs", OWNER + "retrieve_summary_info"]
@@ -262,7 +260,10 @@ def run(ctx):
             run.instance(R5, item, held=True)
             continue
         run.instance(R5, item, held=False)
-        run.finding(Finding(R5, s.fn.id, what, site=s.site(), detail="panic-capable site on a query path used after reopening the wallet"))
+        det = "panic-capable site on a query path used after reopening the wallet"
+        if s.fn.id == UPD + "retrieve_info" and what.startswith("assert:Overflow"):
+            det += "; the balance sums are not bounded by the coin supply: the value of an Unconfirmed record is whatever an unauthenticated sender's slate said (two receives of u64::MAX)"
+        run.finding(Finding(R5, s.fn.id, what, site=s.site(), detail=det))
     R6 = "C06.R6"
     run.rule(R6, "no write is silently lost: a batch that received a write is committed (Ok) before the function returns Ok", floor=30)
     from .shared import writes_committed
@@ -318,4 +319,3 @@ def run(ctx):
     from .C15 import scan_index_covers_all
     scan_index_covers_all(ctx, R9)
     run.not_decided += ["that the invariants hold at every crash point of every multi-batch operation (an enumeration over executions); R1-R3 are the structural conditions the code relies on", "LMDB's own atomicity / durability", "file-system semantics of rename/remove"]
-    run.assumptions.append(_SUPPLY)
